@@ -275,3 +275,117 @@ func describeVal(v ssa.Value) string {
 	}
 	return v.Name()
 }
+
+// ---------- BT-NILTYP
+
+// ruleBTNilTyp: a schema field the target struct lacks is built for with no Go type at all (the record builder
+// passes a nil reflect.Type), and the codec that comes out is used to skip the field. The dispatcher is folded
+// for every schema type and the nil type: no way through it ends in a run-time panic (a method called on the nil
+// type), and a codec comes out — so decoder construction for a file with more fields than the struct returns a
+// decoder, not a crash or a refusal.
+func ruleBTNilTyp(c *Ctx) {
+	c.Rule("BT-NILTYP", "for every schema type the dispatcher, folded with no Go type (a field the struct lacks), returns a codec on some path and panics on none", 10)
+	P := c.P
+	root := P.Func(P.Avro, "buildCodec")
+	schemaNT := P.NamedType(P.Avro, "Schema")
+	if !c.Anchor(root != nil && schemaNT != nil && len(root.Params) == 3, "root dispatcher buildCodec(schema, typ, omit)") {
+		return
+	}
+	schemaT := types.Type(schemaNT)
+	sst := schemaT.Underlying().(*types.Struct)
+	var objT, fieldT types.Type
+	for i := 0; i < sst.NumFields(); i++ {
+		if sst.Field(i).Name() == "Object" {
+			if pt, ok := sst.Field(i).Type().Underlying().(*types.Pointer); ok {
+				objT = pt.Elem()
+			}
+		}
+	}
+	if !c.Anchor(objT != nil, "Schema.Object") {
+		return
+	}
+	ost := objT.Underlying().(*types.Struct)
+	for i := 0; i < ost.NumFields(); i++ {
+		if ost.Field(i).Name() == "Fields" {
+			if sl, ok := ost.Field(i).Type().Underlying().(*types.Slice); ok {
+				fieldT = sl.Elem()
+			}
+		}
+	}
+	sch := func(t string, extra map[string]cpVal, obj map[string]cpVal) cpVal {
+		f := map[string]cpVal{"Type": cpStr{t}}
+		for k, v := range extra {
+			f[k] = v
+		}
+		if obj != nil {
+			f["Object"] = cpPtrTo(cpStructOf(objT, obj), objT)
+		}
+		return cpStructOf(schemaT, f)
+	}
+	long := sch("long", nil, nil)
+	type kase struct {
+		st string
+		s  cpVal
+	}
+	var cases []kase
+	for _, st := range []string{"null", "boolean", "int", "long", "float", "double", "bytes", "string"} {
+		cases = append(cases, kase{st, sch(st, nil, nil)})
+	}
+	cases = append(cases,
+		kase{"fixed", sch("fixed", nil, map[string]cpVal{"Size": cpInt{4}, "Name": cpStr{"F"}})},
+		kase{"array", sch("array", nil, map[string]cpVal{"Items": long})},
+		kase{"array<bytes>", sch("array", nil, map[string]cpVal{"Items": sch("bytes", nil, nil)})},
+		kase{"map", sch("map", nil, map[string]cpVal{"Values": long})},
+		kase{"union", sch("union", map[string]cpVal{"Union": cpSlice{Elems: []*cpCell{{V: sch("null", nil, nil), T: schemaT}, {V: sch("string", nil, nil), T: schemaT}}}}, nil)},
+		kase{"union[null,bytes]", sch("union", map[string]cpVal{"Union": cpSlice{Elems: []*cpCell{{V: sch("null", nil, nil), T: schemaT}, {V: sch("bytes", nil, nil), T: schemaT}}}}, nil)},
+	)
+	if fieldT != nil {
+		mkField := func(name string, t cpVal) *cpCell {
+			return &cpCell{V: cpStructOf(fieldT, map[string]cpVal{"Name": cpStr{name}, "Type": t}), T: fieldT}
+		}
+		cases = append(cases, kase{"record", sch("record", nil, map[string]cpVal{"Name": cpStr{"R"}, "Fields": cpSlice{Elems: []*cpCell{mkField("a", long), mkField("b", sch("bytes", nil, nil)), mkField("c", sch("float", nil, nil))}}})})
+	}
+	old := cpMaxOutcomes
+	cpMaxOutcomes, cpNilInvokePanics = 256, true
+	defer func() { cpMaxOutcomes, cpNilInvokePanics = old, false }()
+	for _, k := range cases {
+		key := fmt.Sprintf("%s/nil-type[%s]", fnKey(root), k.st)
+		pos := P.pos(root.Pos())
+		cpPanicAt = map[ssa.Instruction]bool{}
+		outs, _, ok, why := cpFoldOpt(P, root, []cpVal{k.s, cpNil{}, cpUnk{ID: "arg:omit"}}, nil)
+		at := ""
+		for in := range cpPanicAt {
+			if p := P.pos(in.Pos()); at == "" || p < at {
+				at = p
+			}
+		}
+		cpPanicAt = nil
+		if !ok {
+			c.Unk(key, pos, "the dispatcher could not be folded for schema "+k.st+" and no Go type: "+why)
+			continue
+		}
+		panics, built := "", false
+		for _, o := range outs {
+			if o.Panics {
+				panics = at
+				if panics == "" {
+					panics = "(position unknown)"
+				}
+				continue
+			}
+			if len(o.Results) == 2 {
+				if _, isNil := o.Results[1].(cpNil); isNil {
+					built = true
+				}
+			}
+		}
+		switch {
+		case panics != "":
+			c.Bad(key, pos, fmt.Sprintf("for schema %s and no Go type (a field the struct lacks) decoder construction ends in a run-time panic at %s", k.st, panics))
+		case !built:
+			c.Bad(key, pos, fmt.Sprintf("for schema %s and no Go type no codec comes out: a file with such a field cannot be read into a struct that lacks it", k.st))
+		default:
+			c.OK(key, pos, fmt.Sprintf("folded for schema %s and the nil type: %d outcomes, none panics, a codec comes out", k.st, len(outs)))
+		}
+	}
+}
